@@ -140,7 +140,7 @@ Fixpoint conforms_input (s : schema) (v : json) (t : ty) {struct v} : bool :=
       end
   end.
 
-(* ---- the known classes (decidable) ---- *)
+(* ---- the known class (decidable) ---- *)
 (* D17: a default value is used as converted to JSON, without being coerced: the code differs from the
    specification exactly when some default is not already in coerced form *)
 Definition cv_default_coerced (s : schema) (t : ty) (d : option value) : bool :=
@@ -159,25 +159,6 @@ Definition cv_schema_defaults_coerced (s : schema) : bool :=
 Definition known_default_not_coerced (s : schema) (vars : list vardef) : bool :=
   negb (forallb (fun vd => cv_default_coerced s (v_ty vd) (v_default vd)) vars &&
         cv_schema_defaults_coerced s).
-
-(* two boundary integers: Float rejects +-(2^53 - 1) = MAX_SAFE_INT itself (`<` instead of `<=`), and ID
-   rejects integers in [2^63, 2^64) (is_i64) *)
-Definition cv_edge_int (z : Z) : bool := (Z.abs z =? j_max_safe_int)%Z || (j_two63 <=? z)%Z.
-
-Fixpoint json_mentions_edge_int (v : json) : bool :=
-  match v with
-  | JInt z => cv_edge_int z
-  | JArr l => (fix any (l : list json) : bool :=
-                 match l with [] => false | x :: r => json_mentions_edge_int x || any r end) l
-  | JObj m => (fix any (l : list (str * json)) : bool :=
-                 match l with [] => false | (_, x) :: r => json_mentions_edge_int x || any r end) m
-  | _ => false
-  end.
-
-Definition known_edge_int (values : jmap) : bool := json_mentions_edge_int (JObj values).
-
-Definition Known_C28 (s : schema) (vars : list vardef) (values : jmap) : bool :=
-  known_default_not_coerced s vars || known_edge_int values.
 
 (* ---- well-formedness the theorems assume (what Schema validation and ExecutableDocument validation give) ---- *)
 Definition cv_schema_wf (s : schema) : bool :=
